@@ -147,8 +147,12 @@ func diffMap(old map[string]interface{}, newAny interface{}) interface{} {
 		return nil
 	}
 
-	// Assert that the __key fields, if present, are equal.
-	if old["__key"] != new["__key"] {
+	// Assert that the __key fields, if present, are equal. A missing __key is
+	// not the same as a nil __key: merging a delta that adds or removes the
+	// (stripped) __key field would fail on the client.
+	oldKey, oldHasKey := old["__key"]
+	newKey, newHasKey := new["__key"]
+	if oldHasKey != newHasKey || oldKey != newKey {
 		return markReplaced(new)
 	}
 
